@@ -446,3 +446,109 @@ func storageSetFreshBytesRule(r *Run, pkg, owner string, minSites int) {
 	})
 	r.atLeast("Storage.Set call sites", n, minSites)
 }
+
+// bindMapByValueRule: where the package hands a map to one of (*Bind)'s source binders, it hands the map itself, not
+// a pointer to it. The binder decides by reflection whether a key's values may be split at commas
+// (EnableSplittingOnParsers): for a `map[string]string` / `map[string][]string` it looks at the element kind, for a
+// pointer to the map its kind test answers as for a slice field — every value is split and only a piece is kept.
+// A type-level statement about the call: the dynamic type of the argument is not pointer-to-map.
+func bindMapByValueRule(r *Run, pkg string, min int) {
+	n, bad := 0, 0
+	r.P.AllFuncs(pkg, func(f *ssa.Function) {
+		for _, c := range callsIn(f, false) {
+			if c.Instr.Parent() != f || !strings.Contains(c.Name, "fiber/v3.Bind).") || len(c.Common.Args) < 2 {
+				continue
+			}
+			mi, ok := c.Common.Args[len(c.Common.Args)-1].(*ssa.MakeInterface)
+			if !ok {
+				continue
+			}
+			t := mi.X.Type()
+			isMap := func(t types.Type) bool { _, ok := t.Underlying().(*types.Map); return ok }
+			pt, isPtr := t.Underlying().(*types.Pointer)
+			if !isMap(t) && !(isPtr && isMap(pt.Elem())) {
+				continue
+			}
+			n++
+			ptrToMap := isPtr && isMap(pt.Elem())
+			if ptrToMap {
+				bad++
+			}
+			r.check(!ptrToMap, fmt.Sprintf("%s:%s#%d:map-handed-over-by-value", short(f.String()), short(c.Name), n), r.pos(c.Instr), "the binder is given the map itself",
+				"the binder is given a pointer to the map: its reflective kind test then answers as for a slice, and with EnableSplittingOnParsers every value is split at commas and only the last piece is kept (\"go,web,fiber\" arrives as \"fiber\")")
+		}
+	})
+	r.atLeast("maps handed to a source binder in "+pkg, n, min)
+	_ = bad
+}
+
+// defaultsOnlyForUnsetRule: in configDefault, on the copy of the configuration the caller handed in, a field is
+// assigned only behind a test of that same field (`if cfg.Lock == nil { cfg.Lock = … }`): an assignment behind a test
+// of another field replaces what the caller configured.
+func defaultsOnlyForUnsetRule(r *Run, pkg, owner string, min int) {
+	f := r.Fn(pkg, "configDefault")
+	// the cells that hold a caller's configuration: whole-struct stores whose value is loaded from the variadic parameter
+	explicit := map[*ssa.Alloc]bool{}
+	for _, b := range f.Blocks {
+		for _, in := range b.Instrs {
+			st, ok := in.(*ssa.Store)
+			if !ok {
+				continue
+			}
+			cell, ok := st.Addr.(*ssa.Alloc)
+			if !ok {
+				continue
+			}
+			if dependsOn(st.Val, func(v ssa.Value) bool { _, isP := v.(*ssa.Parameter); return isP }) != nil {
+				explicit[cell] = true
+			}
+		}
+	}
+	r.need(len(explicit) >= 1, pkg+".configDefault copies the caller's configuration into a local")
+	n := 0
+	for _, b := range f.Blocks {
+		for _, in := range b.Instrs {
+			st, ok := in.(*ssa.Store)
+			if !ok {
+				continue
+			}
+			fa, ok := st.Addr.(*ssa.FieldAddr)
+			if !ok {
+				continue
+			}
+			cell, ok := fa.X.(*ssa.Alloc)
+			if !ok || !explicit[cell] {
+				continue
+			}
+			fv := fieldVar(fa.X.Type(), fa.Field)
+			if fv == nil {
+				continue
+			}
+			name := fieldOwner(fv) + "." + fv.Name()
+			n++
+			guarded := false
+			for _, br := range branchesInOne(f) {
+				tests := dependsOn(br.Info.Root, func(v ssa.Value) bool {
+					ld, ok := v.(*ssa.UnOp)
+					if !ok || ld.Op != token.MUL {
+						return false
+					}
+					fa2, ok := ld.X.(*ssa.FieldAddr)
+					return ok && fa2.X == ssa.Value(cell) && fa2.Field == fa.Field
+				}) != nil
+				if !tests {
+					continue
+				}
+				for sl := 0; sl < 2; sl++ {
+					if t := br.If.Block().Succs[sl]; len(t.Preds) == 1 && dom(t, b) {
+						guarded = true
+					}
+				}
+			}
+			r.check(guarded, fmt.Sprintf("configDefault:%s:assigned-only-behind-a-test-of-itself", name), r.pos(in), "the field is assigned behind a test of its own value",
+				name+" of the caller's configuration is assigned without a test of that field (behind a test of another one): a value the caller configured — a shared Lock, a custom Storage — is silently replaced by a fresh default")
+		}
+	}
+	r.atLeast("defaults assigned on the caller's configuration in "+pkg+".configDefault", n, min)
+	_ = owner
+}
